@@ -312,6 +312,8 @@ def run(tier):
     # (e) the same inside an imported module: prefixes of one module text + the literal family
     mod_text = 'version: "3"\nenum E { a = 0, }\nstruct M { x @0: E | unit("m"), }\nimpl can for M { id: 1, }\n'
     fam["module"] = [("module-prefix[:%d]" % k, mod_text[:k]) for k in range(len(mod_text) + 1)] + [("module-" + l, t) for l, t in fam["literal"]]
+    # the same literals pushed to a line number the (3-line) importing file does not have
+    fam["module"] += [("module-late-" + l, t.replace('version: "3"\n', 'version: "3"\n\n/* pad */\n\n\nstruct Pad { p @0: u8, }\n\n', 1)) for l, t in fam["literal"] if t.startswith('version: "3"\n')]
     items = []
     for family in ("literal", "module", "sequence", "mutation", "prefix"):
         for label, text in fam[family]:
